@@ -106,6 +106,8 @@ def run(tier: str, seed: int) -> int:
         for j, inst in enumerate(insts):
             if j not in res:
                 continue
+            if j % 50 == 49:
+                jax.clear_caches()  # long runs exhaust the process' memory mappings with compiled executables otherwise
             kind, K, n, d = inst["kind"], inst["K"], inst["n"], inst["d"]
             N = n * d
             mean_want, joint_want = _time_order_joint(res[j], K, N)
